@@ -133,4 +133,4 @@ hc!(c01_q_s3_unk_pre, sk_obj_sets(&S3_TAB, &[&[0, 1, 3], &[3, 4]]), p_c01::<S3>(
 hc!(c02_q_s3_unk_pre, sk_obj_sets(&S3_TAB, &[&[0, 1, 3], &[3, 4]]), p_cat::<S3>(false, true));
 hc!(c03_q_s4_pre_v, sk_obj_sets(&S4_TAB, &[&[3, 1], &[0]]), p_c03::<S4>(true));
 hc!(c04_q_s5_pre_v, sk_obj_sets(&S5_TAB, &[&[1, 2], &[0]]), p_c04::<S5>(true));
-hc!(c01_q_s5_pre_v, sk_obj_sets(&S5_TAB, &[&[1, 2], &[0]]), p_c01::<S5>(true));
+hc!(c01_q_s5_pre_v, sk_obj_sets(&S5_TAB, &[&[1, 2], &[0]]), p_c01::<S5>(false));
